@@ -172,3 +172,20 @@ PROPS = {
         "assumptions": ["ties between different files at equal reception time are not generated (all reception times are unique)", "payload text criteria are skipped when the input contains non-verbose messages (their text is not known by construction)", "TZ=UTC"],
     },
 }
+
+# sanitizer / interpreter phases (thorough tier; entries with quick=True also run in the quick tier)
+def ph(kind, secs, args=None, shards=16, quick=False, **kw):
+    d = {"kind": kind, "secs": secs, "args": args or [], "shards": shards, "quick": quick}
+    d.update(kw)
+    return d
+
+PROPS["C01"]["phases"] = [ph("miri", 90, ["tiny"]), ph("asan", 60)]
+PROPS["C02"]["phases"] = [ph("asan", 60)]
+PROPS["C03"]["phases"] = [ph("asan", 120, timeout_factor=8), ph("valgrind", 120, ["worker=1", "from=0", "count=1000000"], env={"VMON_TINY": "1"}), ph("miri", 240, ["worker=1", "from=0", "count=1000000"], env={"VMON_TINY": "1"})]
+PROPS["C04"]["phases"] = [ph("miri", 90, ["tiny"]), ph("asan", 60)]
+PROPS["C05"]["phases"] = [ph("asan", 60)]
+PROPS["C06"]["phases"] = [ph("miri", 45, ["tiny"], quick=True, shards=8), ph("tsan", 90), ph("miri", 120, ["tiny"])]
+PROPS["C13"]["phases"] = [ph("tsan", 120), ph("miri", 120, ["tiny"])]
+PROPS["C17"]["phases"] = [ph("asan", 60)]
+PROPS["C18"]["phases"] = [ph("miri", 45, ["tiny"], quick=True, shards=8), ph("asan", 60), ph("miri", 120, ["tiny"])]
+PROPS["C20"]["phases"] = [ph("miri", 120, ["tiny"]), ph("miri", 120, ["extract_only"], shards=8, env={"VMON_TINY": "1"}), ph("valgrind", 90, ["extract_only"]), ph("asan", 60)]
